@@ -730,6 +730,23 @@ pub fn run_exec(spec: &ExecSpec, fss: &[FsSpec]) -> ExecResult {
     if let Some(th) = spec.threads.first() {
         crate::clock::apply_environment(th.key.0.wrapping_mul(31) ^ th.key.1);
     }
+    // S9: decoy files on the disk under the names of the files of every small tree in use
+    let _decoys = {
+        let mut names: Vec<&String> = Vec::new();
+        for th in &spec.threads {
+            for t in &th.tasks {
+                if let Some(fs) = fss.get(t.fs)
+                    && fs.files.len() <= 12
+                {
+                    names.extend(fs.files.keys());
+                }
+            }
+        }
+        names.sort();
+        names.dedup();
+        let key = spec.threads.first().map(|t| t.key.0 ^ t.key.1.rotate_left(9)).unwrap_or(0);
+        crate::clock::Decoys::plant(&names, key)
+    };
 
     let results: Vec<Vec<TaskResult>> = std::thread::scope(|scope| {
         let mut handles = Vec::new();
